@@ -131,7 +131,7 @@ func Main(args []string) {
 	cov := map[string]any{
 		"evaluations":         totalTrans,
 		"distinct_nontrivial": nontrivial,
-		"rule": "breadth-first over ALL sequences of the listed actions from each initial state up to the completed depth; every transition runs the real git-bug binary as a process (or the library for attach / peer / bridge / GraphQL) on a host repository prepared with stock git, and is judged by comparing the foreign parts before and after and by stock git (fsck --strict, clone --mirror with transfer.fsckObjects, gc, push --mirror with receive.fsckObjects). " +
+		"rule": "breadth-first over ALL sequences of the listed actions from each initial state up to the completed depth; every transition runs the real git-bug binary as a process (or the library for attach / attach2 = two file-carrying comments in one commit / peer / bridge / GraphQL) on a host repository prepared with stock git, and is judged by comparing the foreign parts before and after and by stock git (fsck --strict, clone --mirror with transfer.fsckObjects, gc, push --mirror with receive.fsckObjects). " +
 			"States are deduplicated by a canonical key that replaces ids by role names (commit DAG shape with operations minus nonce/time, git-bug config keys, selection, clocks, cache/lock presence) on host, remote and peer; distinct_nontrivial counts the distinct states other than the initial ones, i.e. sessions that changed git-bug data in a new way",
 		"samples":                       samples,
 		"exhaustive":                    exhaustive && !harnessErr,
